@@ -31,7 +31,7 @@ EXPLANATION = (
 TRUSTED = ['int() and math.floor() agree on the accepted (non-negative) domain', 'protobuf copy semantics']
 NOT_DECIDED = ['monotonicity and stretch invariance of step assignment (floating point)', 'behaviour within a few ulps of a half-step boundary']
 ASSUMPTIONS = []
-FLOORS = {'OWN': 30, 'FRAME': 2, 'ROUND': 3, 'SITE': 5, 'PAIR': 2, 'ESC': 5}
+FLOORS = {'OWN': 30, 'FRAME': 4, 'ROUND': 3, 'SITE': 5, 'PAIR': 4, 'ESC': 5}
 
 DOCUMENTED = {'MultipleTimeSignatureError', 'MultipleTempoError', 'BadTimeSignatureError', 'NegativeTimeError'}
 FIELD_SOURCE = {'quantized_start_step': 'start_time', 'quantized_end_step': 'end_time', 'quantized_step': 'time',
@@ -48,6 +48,8 @@ def run(ctx):
   rounding(ctx, mi)
   call_sites(ctx)
   pairing(ctx)
+  total_order(ctx, 'PAIR/total-then-notes')
+  single_explicit(ctx)
   escapes(ctx, rel, ab)
   validation(ctx)
 
@@ -320,6 +322,71 @@ def pairing(ctx):
          'total_quantized_steps is not extended to every (fixed-up) note end', construct='if end_step > total_quantized_steps: total_quantized_steps = end_step')
 
 
+def _copy_name(fi):
+  # the local whose quantization_info is filled in is the sequence being quantized
+  n = set()
+  for st in U.walk_stmts(fi.node):
+    if isinstance(st, ast.Assign):
+      for t in st.targets:
+        if isinstance(t, ast.Attribute) and isinstance(t.value, ast.Attribute) and t.value.attr == 'quantization_info' and isinstance(t.value.value, ast.Name):
+          n.add(t.value.value.id)
+  return n.pop() if len(n) == 1 else None
+
+
+def total_order(ctx, rule):
+  """_quantize_notes max-extends total_quantized_steps to every fixed-up note end
+  (PAIR/total-steps); an entry point must not overwrite it afterwards, and must
+  initialise it from total_time before.  Used by C01 and C11."""
+  for name in ('quantize_note_sequence', 'quantize_note_sequence_absolute'):
+    fi = ctx.func(SL + ':' + name)
+    q = _copy_name(fi)
+    ctx.require(q is not None, '%s: the deep copy being quantized was not found' % name)
+    seq = list(U.walk_stmts(fi.node))
+    calls = [i for i, st in enumerate(seq) if isinstance(st, ast.Expr) and isinstance(st.value, ast.Call) and dotted(st.value.func) == '_quantize_notes'
+             and st.value.args and norm_text(st.value.args[0]) == q]
+    ctx.require(len(calls) == 1, '%s: expected exactly one _quantize_notes(%s, ...) statement, found %d' % (name, q, len(calls)))
+    writes = [i for i, st in enumerate(seq) if isinstance(st, (ast.Assign, ast.AugAssign)) and
+              any(norm_text(t) == q + '.total_quantized_steps' for t in (st.targets if isinstance(st, ast.Assign) else [st.target]))]
+    after = [i for i in writes if i > calls[0]]
+    before = [i for i in writes if i < calls[0]]
+    ok = not after and len(before) >= 1
+    ctx.ob(rule, fi, seq[after[0]] if after else seq[calls[0]], ok,
+           'total_quantized_steps is set from total_time before the notes are quantized and not written afterwards' if ok else
+           ('total_quantized_steps is assigned after _quantize_notes: the extension to the (fixed-up) note ends is overwritten' if after else
+            'total_quantized_steps is not initialised before _quantize_notes'),
+           construct='%s: total_quantized_steps assigned before _quantize_notes' % name)
+
+
+def single_explicit(ctx):
+  """"makes the single tempo and time signature explicit at time zero": the element
+  that survives `del C[1:]` is C[0], so the time that is zeroed must be C[0].time
+  of the same stored container C of the copy (not of a sorted view)."""
+  fi = ctx.func(SL + ':quantize_note_sequence')
+  q = _copy_name(fi)
+  ctx.require(q is not None, 'quantize_note_sequence: the deep copy was not found')
+  seen = set()
+  for blk in U.blocks(fi.node):
+    for i, st in enumerate(blk):
+      if not (isinstance(st, ast.Delete) and len(st.targets) == 1 and isinstance(st.targets[0], ast.Subscript) and isinstance(st.targets[0].slice, ast.Slice)):
+        continue
+      sl = st.targets[0].slice
+      cont = st.targets[0].value
+      if not (isinstance(cont, ast.Attribute) and norm_text(cont.value) == q and cont.attr in ('tempos', 'time_signatures')):
+        continue
+      seen.add(cont.attr)
+      tail = U.const_value(sl.lower) == 1 and sl.upper is None and sl.step is None
+      zero = [x for x in blk[:i] if isinstance(x, ast.Assign) and len(x.targets) == 1 and isinstance(x.targets[0], ast.Attribute) and x.targets[0].attr == 'time' and
+              U.const_value(x.value) == 0 and isinstance(x.targets[0].value, ast.Subscript) and U.const_value(x.targets[0].value.slice) == 0 and
+              norm_text(x.targets[0].value.value) == norm_text(cont)]
+      ok = tail and len(zero) == 1
+      ctx.ob('FRAME/single-at-zero', fi, st, ok, 'the stored %s[0] is kept and its time set to 0' % cont.attr if ok else
+             'the %s element kept by `%s` is not the one whose time is set to 0 (the write must be %s[0].time = 0 on the stored list)' % (cont.attr, norm_text(st), norm_text(cont)),
+             construct='%s[0].time = 0; del %s[1:]' % (cont.attr, cont.attr))
+  for f in ('tempos', 'time_signatures'):
+    if f not in seen:
+      ctx.ob('FRAME/single-at-zero', fi, fi.node, False, 'quantize_note_sequence no longer reduces %s to its first stored element' % f, construct='%s[0].time = 0; del %s[1:]' % (f, f))
+
+
 def escapes(ctx, rel, ab):
   for name, res, want in (('quantize_note_sequence', rel, DOCUMENTED), ('quantize_note_sequence_absolute', ab, {'NegativeTimeError'})):
     fi = ctx.func(SL + ':' + name)
@@ -390,8 +457,7 @@ def validation(ctx):
     for part in v.values:
       if isinstance(part, ast.Name) and part.id == x:
         nonzero_x = True
-      if isinstance(part, ast.Compare) and norm_text(part.left) == x and len(part.ops) == 1 and \
-          isinstance(part.ops[0], (ast.Gt, ast.NotEq)) and U.const_value(part.comparators[0]) == 0:
+      if isinstance(part, ast.Compare) and len(part.ops) == 1 and (U.compare_full(part) or ())[:3] in ((x, '!=', '0'), ('0', '<', x)):
         nonzero_x = True
       if isinstance(part, ast.UnaryOp) and isinstance(part.op, ast.Not) and part.operand is trick[0]:
         zero_tested = True
@@ -434,6 +500,11 @@ def validation(ctx):
 
 
 MUTANTS = [
+    Mutant('seed C01_b: the first of the sorted tempos is zeroed, the first stored one is kept', F, '    qns.tempos[0].time = 0\n', '    tempos[0].time = 0\n', rule='FRAME/single-at-zero'),
+    Mutant('the kept time signature is not moved to time 0', F, '    qns.time_signatures[0].time = 0\n', '', rule='FRAME/'),
+    Mutant('seed C11_b: total_quantized_steps assigned after the notes (absolute)', F,
+           '  qns.total_quantized_steps = quantize_to_step(qns.total_time, steps_per_second)\n  _quantize_notes(qns, steps_per_second)\n\n  return qns\n\n\ndef transpose_note_sequence',
+           '  _quantize_notes(qns, steps_per_second)\n  qns.total_quantized_steps = quantize_to_step(qns.total_time, steps_per_second)\n\n  return qns\n\n\ndef transpose_note_sequence', rule='PAIR/total-then-notes'),
     Mutant('cutoff 0.75', F, 'QUANTIZE_CUTOFF = 0.5', 'QUANTIZE_CUTOFF = 0.75', rule='ROUND/cutoff'),
     Mutant('truncate without the half', F, '  return int(unquantized_steps + (1 - quantize_cutoff))', '  return int(unquantized_steps)', rule='ROUND/half'),
     Mutant('round() (banker\'s ties)', F, '  return int(unquantized_steps + (1 - quantize_cutoff))', '  return round(unquantized_steps)', rule='ROUND/floor-class'),
